@@ -56,21 +56,22 @@ def package_lints(ctx):
 
 
 def transforms_for(ctx, out=print):
-    """Twelve whole-tree behaviour-preserving transforms (selftest/transforms.py), each applied to every module in memory:
+    """Fourteen whole-tree behaviour-preserving transforms (selftest/transforms.py), each applied to every module in memory:
     this property's verdict must not change."""
-    from selftest.transforms import read_sources, transform
+    from selftest.transforms import read_sources, transform, call_tables
     prop = ctx.prop
     mod = importlib.import_module("rules.%s" % prop.lower())
     known = load_known()
     base_new = len([f for f in ctx.findings if match_known(f, known) is None])
     srcs = read_sources(ctx.prog.root)
     kinds = ("reformat", "rename", "pad", "hoist", "invert", "nest", "unnest", "splitand", "extend", "retlocal", "swapeq",
-             "earlycontinue")
+             "earlycontinue", "positional", "keywords")
+    table = call_tables(ctx.prog.root)
     for kind in kinds:
         ov = {}
         for rel, src in srcs.items():
             try:
-                ov[rel] = transform(src, kind)
+                ov[rel] = transform(src, kind, rel, table)
             except SyntaxError:
                 ov[rel] = src
         prog = Program(root=ctx.prog.root, overlay=ov)
